@@ -396,13 +396,15 @@ type cutFile struct {
 type cutTable struct {
 	Idx  cutFile   `json:"idx"`
 	Dat  []cutFile `json:"dat"`
-	Meta string    `json:"meta"` // old | new
+	Meta string    `json:"meta"` // old | new | torn (the new bytes at the old length)
+	MLen []int     `json:"mlen"` // torn: [durable length, current length] of the metadata file
 }
 
 type option struct {
-	Len int
-	Zf  bool
-	Old bool // meta only
+	Len  int
+	Zf   bool
+	Old  bool // metadata: the durable content; recycled data file: the old lineage
+	Torn bool // metadata only: the current bytes cut at the durable length
 }
 
 func min(a, b int) int {
@@ -574,45 +576,9 @@ func (rn *runner) open(dir string) error {
 }
 
 // crashPoint materialises crash images of the present moment, reopens them in a child and records them.
-// tornMeta (experiment, -torn-meta): when the in-place rewrite of a metadata file changed its length, also
-// reopen the image in which the new bytes are on disk but the old length is (the file model of the
-// property allows it; the specification models the metadata file as old-or-new only).  Results are only
-// counted in the summary.
-func (rn *runner) tornMeta(what string, cur map[string][]byte) {
-	for n, c := range cur {
-		id, _ := classify(n)
-		d := rn.tk.dur[n]
-		if id.Kind != "meta" || len(d) == len(c) || len(d) == 0 {
-			continue
-		}
-		l := min(len(d), len(c))
-		torn := append([]byte{}, c[:l]...)
-		rn.imgSeq++
-		dir := filepath.Join(rn.scratch, fmt.Sprintf("torn-%06d", rn.imgSeq))
-		os.MkdirAll(dir, 0o755)
-		for m, mc := range cur {
-			content := mc
-			if m == n {
-				content = torn
-			}
-			os.WriteFile(filepath.Join(dir, m), content, 0o644)
-		}
-		res := reopenImages(rn.self, rn.cfg, []string{dir}, rn.scratch)[0]
-		rn.sum.Count("torn-meta")
-		if !res.OK {
-			rn.sum.Count("torn-meta-open-failed")
-			rn.sum.Extra["torn-meta-example"] = tl.M{"at": what, "file": n, "old_len": len(d), "new_len": len(c), "err": res.Err}
-		}
-		os.RemoveAll(dir)
-	}
-}
-
 func (rn *runner) crashPoint(what string) {
 	rn.points++
 	cur := rn.tk.refresh()
-	if tornMetaExp {
-		rn.tornMeta(what, cur)
-	}
 	// per file options
 	names := make([]string, 0, len(cur))
 	for n := range cur {
@@ -628,6 +594,9 @@ func (rn *runner) crashPoint(what string) {
 			o = []option{{Old: false}}
 			if !bytes.Equal(d, c) {
 				o = append(o, option{Old: true})
+			}
+			if len(c) > len(d) && len(d) > 0 {
+				o = append(o, option{Torn: true}) // the in-place rewrite grew the file
 			}
 		} else {
 			unit := 6
@@ -664,6 +633,8 @@ func (rn *runner) crashPoint(what string) {
 				content = cur[n]
 				if im[n].Old {
 					content = rn.tk.dur[n]
+				} else if im[n].Torn {
+					content = cur[n][:len(rn.tk.dur[n])]
 				}
 			} else {
 				content = imageContent(rn.tk.dur[n], cur[n], im[n])
@@ -696,6 +667,19 @@ func (rn *runner) crashPoint(what string) {
 		}
 		return o[0]
 	}))
+	for _, n := range names {
+		for _, x := range opts[n] {
+			if x.Torn {
+				tn := n
+				add(pick(func(m string, o []option) option {
+					if m == tn {
+						return option{Torn: true}
+					}
+					return o[0]
+				}))
+			}
+		}
+	}
 	for tries := 0; len(images) < rn.perPt && tries < 4*rn.perPt; tries++ {
 		add(pick(func(n string, o []option) option { return o[rn.r.Intn(len(o))] }))
 	}
@@ -710,7 +694,7 @@ func (rn *runner) crashPoint(what string) {
 		}
 		ct := map[string]*cutTable{}
 		for _, t := range rn.cfg.Tables {
-			ct[t.Name] = &cutTable{Meta: "new", Dat: []cutFile{}}
+			ct[t.Name] = &cutTable{Meta: "new", Dat: []cutFile{}, MLen: []int{}}
 		}
 		for _, n := range names {
 			id, _ := classify(n)
@@ -722,6 +706,10 @@ func (rn *runner) crashPoint(what string) {
 				if o.Old {
 					content = d
 					ct[id.Table].Meta = "old"
+				} else if o.Torn {
+					content = c[:len(d)]
+					ct[id.Table].Meta = "torn"
+					ct[id.Table].MLen = []int{len(d), len(c)}
 				}
 			} else {
 				content = imageContent(d, c, o)
@@ -948,7 +936,6 @@ func (rn *runner) history(h int, steps int, script string) {
 }
 
 var unsyncedTail bool
-var tornMetaExp bool
 
 // mainCrash picks one crash image of the present moment and continues the history on it.
 func (rn *runner) mainCrash(h, k int) {
@@ -959,7 +946,7 @@ func (rn *runner) mainCrash(h, k int) {
 	}
 	ct := map[string]*cutTable{}
 	for _, t := range rn.cfg.Tables {
-		ct[t.Name] = &cutTable{Meta: "new", Dat: []cutFile{}}
+		ct[t.Name] = &cutTable{Meta: "new", Dat: []cutFile{}, MLen: []int{}}
 	}
 	names := make([]string, 0, len(cur))
 	for n := range cur {
@@ -1055,7 +1042,6 @@ func main() {
 	perPt := flag.Int("images", 6, "crash images per crash point")
 	every := flag.Bool("every-length", false, "propose every byte length between durable and current")
 	flag.BoolVar(&unsyncedTail, "unsynced-tail", false, "also truncate the tail above the synced head")
-	flag.BoolVar(&tornMetaExp, "torn-meta", false, "experiment: also reopen images with a torn metadata rewrite (counted only)")
 	script := flag.String("script", "", "run this history instead of random ones, e.g. a2,s,t1,h1,c,a1 (append/sync/tail/head/crash)")
 	scripts := flag.String("scripts", "", "JSON file with call histories sampled by TLC ([[{c,n}..]..]) to run before the random ones")
 	out := flag.String("out", "summary.json", "summary output")
